@@ -545,7 +545,7 @@ Lemma py_of_record o e s n al fs l : Read.resolve e s = SRecord n al fs ->
 Proof. intros H. cbn [py_of]. rewrite H. reflexivity. Qed.
 Lemma py_of_union o e s bs i x : Read.resolve e s = SUnion bs ->
   py_of o e s (AUnion i x) = match nthZ bs i with
-                             | Some b => match py_of o e b x with Some v => Some (wrap_union o bs b v) | None => None end
+                             | Some b => match py_of o e b x with Some v => Some (wrap_union o e bs b v) | None => None end
                              | None => None end.
 Proof. intros H. cbn [py_of]. rewrite H. reflexivity. Qed.
 
